@@ -47,8 +47,8 @@ func (g *gen) num() string {
 		return rapid.SampledFrom([]string{"180.5", "-90.5", "999", "-181", "91", "-1e3"}).Draw(t, "invalidlit")
 	}
 	m := rapid.IntRange(0, 9).Draw(t, "numkind")
-	if g.o.Lattice && m < 7 {
-		return strconv.Itoa(rapid.IntRange(-3, 12).Draw(t, "lat"))
+	if g.o.Lattice && m < 9 { // lattice documents stay almost purely lattice, so that long lines keep finite, comparable coordinates
+		return strconv.Itoa(rapid.IntRange(-4, 12).Draw(t, "lat")) // extent 16: the quad split lines of a full-range box are lattice lines
 	}
 	switch {
 	case m < 3:
@@ -144,7 +144,7 @@ func (g *gen) posDims(first int) int {
 func (g *gen) line() string {
 	t := g.t
 	n := rapid.IntRange(2, 6).Draw(t, "linelen")
-	if rapid.IntRange(0, 19).Draw(t, "longline") == 0 {
+	if rapid.IntRange(0, 11).Draw(t, "longline") == 0 {
 		n = rapid.IntRange(17, 70).Draw(t, "longlinelen") // long enough for R-tree splits and the default index threshold
 	}
 	if g.mutate("line") {
